@@ -1,6 +1,6 @@
 (** Lemmas about the row codec model (C13). *)
 From Coq Require Import List ZArith String Ascii Bool Lia ZifyBool DecimalString DecimalZ DecimalPos Decimal.
-From Thunder Require Import Sql.Codec.
+From Thunder Require Import Sql.TimeText Sql.Codec.
 Import ListNotations.
 Open Scope list_scope.
 Open Scope Z_scope.
@@ -107,8 +107,8 @@ Proof. unfold wrap_s. pows. brk; lia. Qed.
 Record env_laws (e : env) : Prop := {
   law_f64 : forall f, parsef e (fmt64 e f) = Some f;
   law_f32 : forall f, round32 e f = f -> exists f', parsef e (fmt32 e f) = Some f' /\ round32 e f' = f;
-  law_tus : forall t, t mod 1000 = 0 -> parse_t e (fmt_us e t) = Some t;
-  law_tsec : forall t, t mod 1000000000 = 0 -> parse_t e (fmt_sec e t) = Some t
+  law_tus : forall t, text_range t = true -> t mod 1000 = 0 -> parse_t e (fmt_us e t) = Some t;
+  law_tsec : forall t, text_range t = true -> t mod 1000000000 = 0 -> parse_t e (fmt_sec e t) = Some t
 }.
 
 Local Opaque print_Z wrap_s wrap_u Z.pow parse_int64.
@@ -269,6 +269,7 @@ Proof.
   destruct p; cbn [repr proto_src] in Hr.
   4: { inv Hr. reflexivity. }
   all: destruct c as [cw u| | | | |m]; cbn [storable negb] in Hr; try discriminate;
+    destruct (text_range t) eqn:Htr; cbn [negb] in Hr; try discriminate;
     try destruct m;
     match type of Hr with
     | (if ?b then _ else _) = _ => destruct b eqn:Hm; try discriminate
